@@ -338,6 +338,29 @@ def check_getitem(kind: int, key: bytes) -> bool:
     return r1 == r2 and c1 == c2 and len(c1) >= 1 and c1[0][1][-1] == key
 
 
+def check_query_glue(kind: int) -> bool:
+    """
+    pre: 0 <= kind <= 2
+    post: _ == True
+    """
+    for k in range(3):
+        if kind == k:
+            sk = mk(k)
+            clear_calls()
+            r = sk.query(b"xy")
+            cs = calls()
+            qn = ("_query_linear", "_query_log16", "_query_log8")[k]
+            ok = len(cs) >= 1 and cs[0][0] == qn and len(cs[0][1]) == 6
+            a = cs[0][1]
+            ok = ok and a[0] is sk.cms and a[1] is sk.buckets and a[2] == sk.width and a[3] == sk.depth and a[4] == sk.uint_maxval and a[5] == b"xy"
+            if k == 0:
+                return ok and len(cs) == 1 and r == 7
+            # log sketches decode the smallest counter with their own num_reserved and base
+            ok = ok and len(cs) == 2 and cs[1][0] == "_counter2value" and cs[1][1][0] == 7 and cs[1][1][1] == sk.num_reserved and cs[1][1][2] == sk.base
+            return ok and r == ("decoded", 7)
+    return True
+
+
 def check_log_ctor(kind: int, mc: int, res: int) -> bool:
     """
     pre: 1 <= kind <= 2 and 70000 <= mc < 2**64 and 0 <= res < 255
@@ -361,6 +384,14 @@ def check_twin_cap_reachable(value: int) -> bool:
     return scalars(calls()[0][1])[-1] == value      # false claim ("never capped"): refuted for value > 2^32-1
 
 # ---------------------------------------------------------------------------------------------- real-library replays
+def real_query_glue(kind):
+    sk = mk(kind)
+    sk.add(b"xy", 3)
+    sk.add(b"zz", 200)
+    got = sk.query(b"xy")
+    return float(got) == 3.0, f"query(b'xy') after add(b'xy', 3), add(b'zz', 200) on a 4x2 sketch = {got}"
+
+
 def real_log_ctor(kind, mc, res):
     try:
         sk = CM.CountMinLog16(3, 2, mc, res) if kind == 1 else CM.CountMinLog8(3, 2, mc, res)
